@@ -61,14 +61,14 @@ def spec(tier):
     obs.append(twin("pack_oom", "c01.container_order", psym, dict(base_pack, o0=0, o1=1, o2=2), "oom"))
 
     # A4: full scheduler+executor simulations on branching DAGs
-    shapes = ["diamond", "fanin3", "fanout3"] + (["fork4", "chain3", "tworoots2"] if th else [])
+    shapes = ["diamond", "fanin3", "fanout3", "triangle"] + (["fork4", "chain3", "tworoots2", "tworootskip"] if th else [])
     algos = [("naive", 1, False), ("priority", 1, False), ("priority-pool", 2, False), ("overbook", 1, True), ("starter", 1, False)]
     for algo, pools, oc in algos:
         for multi in (True, False):
             if algo == "priority-pool" and not multi:
                 continue    # crashes on every multi-operator pipeline (C08/C16 finding D7), nothing to observe
             for shp in shapes:
-                if not th and shp != "diamond" and algo in ("priority", "priority-pool", "starter"):
+                if not th and shp not in ("diamond", "triangle") and algo in ("priority", "priority-pool", "starter"):
                     continue
                 cfg = dict(algo=algo, pools=pools, oc=oc, multi=multi, K=12 if th else 10,
                            pipes=[pipe(shp, prio=3, at=0, durs=["da", 1, "db", 1], mems=[1, "ma", 1, 1]),
